@@ -811,6 +811,65 @@ fn large_cases(rng: &mut Rng) -> Vec<Vec<Instruction>> {
         ]);
         out.push(keys.iter().map(|k| Instruction::Declaration(Declaration::new(format!("r{}", k % 37), Vector::new(ScalarType::Bit, *k as u64), None))).collect());
     }
+    // round 4: long lists in every list position of the six definition kinds (the generator's own lists have at
+    // most 4 elements: a writer dropping what comes after the fourth element went unnoticed)
+    for &n in &[5usize, 9, 33] {
+        let names: Vec<String> = (0..n).map(|k| format!("a{k}")).collect();
+        let qs: Vec<Qubit> = (0..n as u64).map(Qubit::Fixed).collect();
+        let body: Vec<Instruction> = (0..n)
+            .map(|k| Instruction::Gate(Gate::new("RX", vec![real(k as f64)], vec![Qubit::Fixed(k as u64)], vec![]).unwrap()))
+            .collect();
+        let mut defs: Vec<Instruction> = Vec::new();
+        if let Ok(d) = GateDefinition::new("PERM".into(), vec![], GateSpecification::Permutation((0..n as u64).collect())) {
+            defs.push(Instruction::GateDefinition(d));
+        }
+        if let Ok(d) = GateDefinition::new(
+            "MAT".into(),
+            names.clone(),
+            GateSpecification::Matrix((0..n).map(|r| (0..n).map(|c| real((r * n + c) as f64)).collect()).collect()),
+        ) {
+            defs.push(Instruction::GateDefinition(d));
+        }
+        let terms: Vec<PauliTerm> = (0..n)
+            .map(|t| {
+                PauliTerm::new(
+                    (0..n).map(|k| ([PauliGate::I, PauliGate::X, PauliGate::Y, PauliGate::Z][(k + t) % 4], names[k].clone())).collect(),
+                    real(t as f64),
+                )
+            })
+            .collect();
+        if let Ok(sum) = PauliSum::new(names.clone(), terms) {
+            if let Ok(d) = GateDefinition::new("PS".into(), vec![], GateSpecification::PauliSum(sum)) {
+                defs.push(Instruction::GateDefinition(d));
+            }
+        }
+        let gates: Vec<Gate> = (0..n)
+            .filter_map(|k| Gate::new("RZ", vec![real(k as f64)], vec![Qubit::Variable(names[k].clone())], vec![]).ok())
+            .collect();
+        if let Ok(seq) = DefGateSequence::try_new(names.clone(), gates) {
+            if let Ok(d) = GateDefinition::new("SEQ".into(), vec![], GateSpecification::Sequence(seq)) {
+                defs.push(Instruction::GateDefinition(d));
+            }
+        }
+        if let Ok(id) = CalibrationIdentifier::new("CAL".into(), vec![GateModifier::Dagger; n], (0..n).map(|k| real(k as f64)).collect(), qs.clone()) {
+            defs.push(Instruction::CalibrationDefinition(CalibrationDefinition::new(id, body.clone())));
+        }
+        defs.push(Instruction::MeasureCalibrationDefinition(MeasureCalibrationDefinition::new(
+            MeasureCalibrationIdentifier::new(None, Qubit::Fixed(0), Some("dest".into())),
+            body.clone(),
+        )));
+        defs.push(Instruction::CircuitDefinition(CircuitDefinition::new("CIRC".into(), names.clone(), names.clone(), body.clone())));
+        let mut attributes = IndexMap::new();
+        for (k, name) in names.iter().enumerate() {
+            attributes.insert(name.clone(), if k % 2 == 0 { AttributeValue::String(format!("s{k}")) } else { AttributeValue::Expression(real(k as f64)) });
+        }
+        defs.push(Instruction::FrameDefinition(FrameDefinition::new(FrameIdentifier::new("fr".into(), qs.clone()), attributes)));
+        defs.push(Instruction::WaveformDefinition(WaveformDefinition::new(
+            "wf/long".into(),
+            Waveform::new((0..n).map(|k| real(k as f64)).collect(), names.clone()),
+        )));
+        out.push(defs);
+    }
     out
 }
 
